@@ -7,7 +7,7 @@ use crate::props::c05::eval_cutoffs;
 use crate::props::par;
 use crate::props::PropDef;
 use crate::run::*;
-use crate::wrap::Ev;
+use crate::wrap::{tkey, Ev};
 use ddo::*;
 use proptest::prelude::*;
 use serde::{Deserialize, Serialize};
@@ -81,7 +81,7 @@ fn check_cache_traffic(log: &[(u32, Ev<St>)]) -> Result<usize, String> {
             Ev::CacheUpdate { state, depth, value, explored } => {
                 let th = Threshold { value: *value, explored: *explored };
                 let e = reference.entry((*depth, state.clone())).or_insert(th);
-                if th > *e {
+                if tkey(&th) > tkey(e) {
                     *e = th;
                 }
             }
